@@ -82,11 +82,12 @@ Definition tts_positions (n : Z) (test_size train_size : option Z) : res (list Z
   | Err => Err
   end.
 (* fh form, relative horizon: train = everything before the last max(fh) points, test = cutoff+fh *)
-Definition tts_fh_relative (n : Z) (fh : list Z) : res (list Z * list Z) :=
+Definition tts_fh_relative_at (lo n : Z) (fh : list Z) : res (list Z * list Z) :=
   let m := zlast fh in
   if (0 <? zfirst fh) && (m <? n) then
-    let cut := n - m - 1 in Ok (zrange 0 (cut + 1) 1, map (fun h => cut + h) fh)
+    let cut := lo + n - m - 1 in Ok (zrange lo (cut + 1) 1, map (fun h => cut + h) fh)
   else Err.
+Definition tts_fh_relative (n : Z) (fh : list Z) : res (list Z * list Z) := tts_fh_relative_at 0 n fh.
 
 (* fh form, absolute horizon over a series labelled lo .. lo+n-1: train = every label before the first
    requested time point, test = exactly the requested time points *)
